@@ -196,6 +196,18 @@ pub fn run(name: &str) -> Option<bool> {
             });
             !matches!(inner, Ok(8)) || r.bits_remaining() != 16
         }
+        // known finding: INTEGER without a lower bound maps to an unsigned type
+        "inttype_min_absent" => {
+            use asn1rs::model::parse::Tokenizer;
+            use asn1rs::model::rust::{Rust, RustType};
+            use asn1rs::model::Model;
+            let text = "M DEFINITIONS AUTOMATIC TAGS ::= BEGIN A ::= INTEGER (MIN..100) B ::= INTEGER END";
+            let model = Model::try_from(Tokenizer::default().parse(text)).unwrap().try_resolve().unwrap().to_rust();
+            let unsigned = |name: &str| {
+                model.definitions.iter().any(|d| d.0 == name && matches!(&d.1, Rust::TupleStruct { r#type: RustType::U8(_) | RustType::U16(_) | RustType::U32(_) | RustType::U64(_), .. }))
+            };
+            unsigned("A") || unsigned("B")
+        }
         _ => return None,
     })
 }
